@@ -285,6 +285,8 @@ def value_pattern(seed, n, xt, mt, vclass="pos"):
         if xd.kind == "f" and n:
             out[~np.isfinite(out)] = 1.5
         return out
+    if vclass == "big":
+        return ((np.arange(n, dtype=np.int64) * 3 + seed) % 100 + 1000).astype(xd)
     lo, hi = (-100, 100) if vclass == "neg" else (0, 100)
     span = hi - lo + 1
     ii = np.arange(n, dtype=np.int64)
